@@ -266,6 +266,30 @@ fn simplify(ev: &Ev, viol: &Violation) -> Vec<Ev> {
                 }
             }
         }
+        Ev::OnNested { w, t, inner, at, nested } => {
+            // no preemption at all; fewer nested operations; an earlier seam
+            out.push(Ev::On { w: *w, t: *t, inner: inner.clone() });
+            for i in 0..nested.len() {
+                if nested.len() > 1 {
+                    let mut n = nested.clone();
+                    n.remove(i);
+                    out.push(Ev::OnNested { w: *w, t: *t, inner: inner.clone(), at: *at, nested: n });
+                }
+            }
+            if *at > 0 {
+                out.push(Ev::OnNested { w: *w, t: *t, inner: inner.clone(), at: 0, nested: nested.clone() });
+            }
+            for (i, n) in nested.iter().enumerate() {
+                for x in simplify(n, viol) {
+                    let mut nn = nested.clone();
+                    nn[i] = x;
+                    out.push(Ev::OnNested { w: *w, t: *t, inner: inner.clone(), at: *at, nested: nn });
+                }
+            }
+            for x in simplify(inner, viol) {
+                out.push(Ev::OnNested { w: *w, t: *t, inner: Box::new(x), at: *at, nested: nested.clone() });
+            }
+        }
         Ev::On { w, t, inner } => {
             if *t != 0 {
                 out.push(Ev::On { w: *w, t: 0, inner: inner.clone() });
